@@ -37,7 +37,17 @@ func (Prop) Rule() string {
 		"Exceptional tuples constructed from the reference: dB = +-avf(x([rB]G))*rB mod n (peer sum is a doubling / the point at infinity -> both sides must fail), tA = 0. " +
 		"Rejection: ephemeral peer points off-curve, infinity, x>=p, y>=p, negative, on P-256 -> error from RepondKeyExchange/ConfirmResponder; invalid encodings -> error from ecdh.NewPublicKey; invalid static peer key (struct literal) must never yield a key; every byte of S_B and S_A flipped (^01, ^80), truncated, extended, zeroed, swapped -> refused. " +
 		"E1: BFS to depth 5 (quick 4) over histories of {Init, Respond, ConfirmResponder(nil/correct/wrong), ConfirmInitiator(nil/correct/wrong), SetPeerParameters} on one object (4 variants: peer known at construction or not x confirmation on/off), states merged on the full private state dump + model; " +
-		"oracle: never a panic; steps whose required data is missing (no peer, no ephemeral key, no derived point) or that repeat SetPeerParameters return an error; every key/confirmation returned in a state the model defines equals the reference value for the data actually supplied."
+		"oracle: never a panic; steps whose required data is missing (no peer, no ephemeral key, no derived point) or that repeat SetPeerParameters return an error; every key/confirmation returned in a state the model defines equals the reference value for the data actually supplied. " +
+		"Widening (widen*.go), all against the same reference, on 3 fixed tuples (GB/T annex B; small scalars whose public keys have a leading zero byte; n-2/dense scalars): " +
+		"(klen) every key length 1..320 and 479..481, 511..513, 1023..1025 (thorough 1..1100, 2047..2049, 4096, 4097) on both implementations, reference = prefix of one KDF evaluation; every ordered pair of 12 (thorough 21) key-length classes in direct succession (ecdh: two SM2SharedKey calls; sm2: two responder objects used alternately), the second key judged; " +
+		"(uidlen) every identity length 0..200, 255..257, 511..513, 1023, 1024, 4095, 4096, 8190, 8191 (thorough 0..1100, 2047..2049, 4095..4097, 8120..8191) as own and as peer identity, constructor and SetPeerParameters route, SM2ZA directly; " +
+		"(args) identities as records own||peer, peer||own, one slice for both, separate buffers ending at a guard page, slack 0,1,31,32,33,64,128,192,256 (thorough 16 classes) of dirty bytes, empty identities as empty slices with spare capacity; arguments and slack compared after construction, then overwritten, the same memory handed to a second constructor, then both objects driven; the same for the encodings given to ecdh NewPrivateKey/NewPublicKey (records d||r, P||R), for SM2SharedKey/SM2ZA (two passes) and for S_B/S_A given to ConfirmResponder/ConfirmInitiator (wrong value, then twice the right value in the same buffer); " +
+		"(ownership) every returned key / confirmation value / Bytes() / ZA / ECDH / SM2MQV result is overwritten after comparison and the call repeated three times; key and S_A of one call must not share memory; Destroy must leave returned results, the caller's key objects and other objects intact; " +
+		"(history) one initiator and one responder object through sessions with changing r_A, r_B, R_A, R_B, a refused confirmation value / off-curve point followed by the genuine one, a second InitKeyExchange, objects of key length 256/1/97 sharing key objects and identity slices used alternately; ecdh key objects cold (public key never derived) and warm, partners changing and coming back, one object in two argument positions, exchange with oneself; " +
+		"(peer-points) static and ephemeral peer points chosen by coordinates: x = 0, x just below p, x = 2^127 (x-bar minimal), x = 2^128-1 (x-bar maximal), y with a leading zero byte, G (thorough: 14 points) as full P x R product x both roles x own pairs, one-sided reference; (agreed-point) the agreed point V itself chosen from that list, peer static key solved as [1/t]V - [x-bar]R; " +
+		"(implicit-sig) static keys solved so that t = 2^k, 2^k - 1 (k = 1,8,16,64,128,192,248,255), n-2 and so that the integer sum d + (x-bar r mod n) is n-1, n+1, n+2, n+2^223, 2^256-2, 2^256-1, 2^256, 2^256+1, 2^256+2^64 (all three branches of the final conditional subtraction), as initiator, responder and both; " +
+		"(variants) SM2ZA with SM3, SHA-1, SHA-224, SHA-256, SHA-512, SHA-512/256 and a hash object reused after Reset; private keys from NewPrivateKey, NewPrivateKeyFromInt, FromECPrivateKey, struct literal x peer keys from struct literal, sm2.NewPublicKey, &priv.PublicKey; ecdh keys from NewPrivateKey, sm2.PrivateKey.ECDH x NewPublicKey, PrivateKey.PublicKey, sm2.PublicKeyToECDH; returned pointers passed on directly; one key object on both sides; " +
+		"(rand) InitKeyExchange / RepondKeyExchange / ecdh.GenerateKey on streams that begin with one or two unusable blocks (0, n, n+1, 2^256-1, n-1; raw and under GenerateKey's byte tweak): the point sent must be a finite curve point and the exchange must end with the value the peer computes from that point alone."
 }
 func (Prop) Assumptions() []string {
 	return []string{
@@ -47,6 +57,10 @@ func (Prop) Assumptions() []string {
 		"E1 model leaves behaviour open (only 'no panic') after a failed Respond/ConfirmResponder and for ConfirmInitiator after a later InitKeyExchange replaced the ephemeral key; Destroy is not part of the alphabet",
 		"nil coordinates / nil keys (programmer errors) are not presented; cofactor h = 1",
 		"dispatch tiers reachable on this amd64 host only",
+		"widening: *ecdsa.PublicKey values returned by InitKeyExchange / RepondKeyExchange are views of the object's state (the library's tests pass them on directly), so the ownership oracle covers byte slices only; peer key objects handed in are required to stay unmodified, not to be copied",
+		"widening: after a refused peer input (wrong confirmation value, off-curve point) the next valid input on the same object must be processed normally (the refused call changed nothing the caller supplied); behaviour of an object after Destroy is not examined beyond 'other objects and caller data intact'",
+		"widening: key length 0 / negative, a hash object handed to SM2ZA that already holds data, and private scalars outside [1,n-2] handed to ecdh.NewPrivateKey are not presented (not defined by the property); how a generator samples its scalar is not assumed",
+		"widening: writes into the dirty spare capacity behind an input-only argument (identity, key encoding, confirmation value) are reported (key .../spare-capacity-written), separately from a modified argument",
 	}
 }
 
@@ -487,6 +501,9 @@ func (Prop) Run(c *engine.Ctx) {
 			})
 		}
 	}
+
+	// ---- widening along the generic input dimensions (widen*.go) ------------------------------------------
+	widen(c, fixed, ds, rs)
 }
 
 // adjacentUIDs lays the two identities out as one record (own uid directly followed by the peer uid, the first one's
